@@ -28,7 +28,7 @@ class Box(object):
 
 
 @contextlib.contextmanager
-def open_box(kind, prefix='', fake=None):
+def open_box(kind, prefix='', fake=None, hostile_dir=False):
     if kind == 'memory':
         from playback.tape_cassettes.in_memory.in_memory_tape_cassette import InMemoryTapeCassette
         c = InMemoryTapeCassette()
@@ -37,7 +37,9 @@ def open_box(kind, prefix='', fake=None):
     elif kind == 'file':
         import os
         from playback.tape_cassettes.file_based.file_based_tape_cassette import FileBasedTapeCassette
-        d = tempfile.mkdtemp(prefix='vp-filecas-')
+        d0 = tempfile.mkdtemp(prefix='vp-filecas-')
+        # a directory name with shell-pattern metacharacters and a blank: perfectly legal, easy to mishandle
+        d = os.path.join(d0, 'rec[2026] *a?') if hostile_dir else d0
         try:
             c = FileBasedTapeCassette(d)
 
@@ -49,7 +51,7 @@ def open_box(kind, prefix='', fake=None):
                 return out
             yield Box(kind, c, lambda: FileBasedTapeCassette(d), snap, lambda: None)
         finally:
-            shutil.rmtree(d, ignore_errors=True)
+            shutil.rmtree(d0, ignore_errors=True)
     elif kind == 's3':
         fk = fake or FakeS3()
         with fk.installed():
